@@ -55,7 +55,7 @@ def weird_inv(rng):
         elif r < 0.18:
             d = rng.choice([N, L(I(1)), S('text'), I(0)])
         inv.classes[(nme + '.yml',)] = d
-    inv.universe.update(names + ['no.such', 'x'])
+    inv.universe.update(names + ['no.such', 'x', '1'])     # every name an include entry can spell, incl. the integer entry of L(I(1))
     inv.nodes[('n.yml',)] = G.doc(names[:2] + (['${sel}'] if rng.random() < 0.3 else []), [], ('m', [(S('q'), weird_value(rng, 1))]))
     return inv
 
